@@ -5,6 +5,8 @@ CONSTANTS
   MaxRot = 1
   Dedup = TRUE
   Recheck = TRUE
+  UseTree = TRUE
+  TreeAtomic = TRUE
   ReaderFallback = TRUE
 CONSTRAINT Emit
 CONSTRAINT Stop
